@@ -6,6 +6,7 @@ import (
 	"fmt"
 	"go/token"
 	"go/types"
+	"os"
 
 	"golang.org/x/tools/go/ssa"
 )
@@ -37,6 +38,17 @@ func (sa *Safe) step(fr *frame, st *State, ins ssa.Instruction) {
 			sa.storePath(st, o, "", z)
 		} else if z.Kind != avUnknown {
 			sa.storePath(st, o, "", z)
+		}
+		if arr, ok := elem.Underlying().(*types.Array); ok && arr.Len() <= 64 {
+			if _, isInt := intRange(arr.Elem()); isInt {
+				for k := int64(0); k < arr.Len(); k++ {
+					sa.storePath(st, o, fmt.Sprintf("[%d]", k), AVal{Kind: avInt, Lin: linConst(0), Type: arr.Elem()})
+				}
+				if sa.fullyInit == nil {
+					sa.fullyInit = map[*AObj]bool{}
+				}
+				sa.fullyInit[o] = true
+			}
 		}
 		fr.regs[x] = AVal{Kind: avPtr, Obj: o, Path: "", NonNil: true, Type: x.Type()}
 		if isReaderType(x.Type()) {
@@ -276,6 +288,21 @@ func (sa *Safe) fit(fr *frame, st *State, l *Lin, t types.Type, desc string) AVa
 		if iv.Lo >= rg.Lo && iv.Hi <= rg.Hi {
 			return AVal{Kind: avInt, Lin: l, Type: t}
 		}
+		// the interval alone does not exclude wrap-around: try the known facts
+		loOK := iv.Lo >= rg.Lo || st.prove(l.scale(-1).addConst(rg.Lo))
+		hiOK := iv.Hi <= rg.Hi || (rg.Hi < posInf && st.prove(l.addConst(-rg.Hi)))
+		if loOK && hiOK {
+			return AVal{Kind: avInt, Lin: l, Type: t}
+		}
+		if os.Getenv("NASVERIF_DEBUG") == "fit" {
+			fmt.Fprintf(os.Stderr, "fit fails for %s : %s in %s lo=%v hi=%v\n", desc, sa.u.linString(l), iv, loOK, hiOK)
+			for _, f := range st.facts {
+				fmt.Fprintf(os.Stderr, "    fact %s <= 0\n", sa.u.linString(f))
+			}
+			for a := range l.T {
+				fmt.Fprintf(os.Stderr, "    atom %s in %s\n", sa.u.atoms[a].Desc, st.atomItv(a))
+			}
+		}
 	}
 	if l != nil {
 		// wrap-around possible: the same expression wraps to the same value, so it gets one atom
@@ -286,7 +313,9 @@ func (sa *Safe) fit(fr *frame, st *State, l *Lin, t types.Type, desc string) AVa
 		a, ok := sa.wrapAtoms[k]
 		if !ok {
 			a = sa.u.newAtom("wrap("+desc+")", rg)
-			sa.u.atoms[a].Where = fr.curIns
+			for at := range l.T {
+				sa.u.atoms[a].Deps = append(sa.u.atoms[a].Deps, at)
+			}
 			sa.wrapAtoms[k] = a
 			if sa.wrapSrc == nil {
 				sa.wrapSrc = map[atomID]*Lin{}
@@ -443,21 +472,56 @@ func (sa *Safe) binop(fr *frame, st *State, x *ssa.BinOp) AVal {
 		// division by zero
 		nz := ib.Lo > 0 || ib.Hi < 0
 		sa.oblige("safe.divzero", fr.fn, desc, x.Pos(), nz || st.dead, "divisor may be zero: "+ib.String())
-		if bConst && cb > 0 && ia.Lo >= 0 {
-			if x.Op == token.QUO {
-				q := sa.boundedAtom(fr, st, t, desc, Itv{ia.Lo / cb, satDiv(ia.Hi, cb)})
-				// cb*q <= a  and  a <= cb*q + cb - 1
-				st.assume(q.Lin.scale(cb).add(a.Lin, -1))
-				st.assume(a.Lin.add(q.Lin, -cb).addConst(-(cb - 1)))
-				return q
+		if bConst && cb > 0 {
+			// exact division: every coefficient of the dividend is a multiple of the divisor
+			exact := a.Lin.C%cb == 0
+			for _, k := range a.Lin.T {
+				if k%cb != 0 {
+					exact = false
+				}
 			}
+			if exact {
+				if x.Op == token.REM {
+					return AVal{Kind: avInt, Lin: linConst(0), Type: t}
+				}
+				q := &Lin{C: a.Lin.C / cb, T: map[atomID]int64{}}
+				for at, k := range a.Lin.T {
+					q.T[at] = k / cb
+				}
+				return sa.fit(fr, st, q, t, desc)
+			}
+		}
+		if bConst && cb > 0 && ia.Lo >= 0 {
+			// quotient and remainder of the same dividend share their unknowns: a == cb*q + r, 0 <= r < cb
+			if sa.divMemo == nil {
+				sa.divMemo = map[string][2]atomID{}
+			}
+			key := fmt.Sprintf("%s|%d", a.Lin.key(), cb)
+			qr, ok := sa.divMemo[key]
+			if !ok {
+				qa := sa.u.newAtom(exprText(x.X)+"/"+fmt.Sprint(cb), Itv{0, posInf})
+				ra := sa.u.newAtom(exprText(x.X)+"%"+fmt.Sprint(cb), Itv{0, cb - 1})
+				for at := range a.Lin.T {
+					sa.u.atoms[qa].Deps = append(sa.u.atoms[qa].Deps, at)
+					sa.u.atoms[ra].Deps = append(sa.u.atoms[ra].Deps, at)
+				}
+				qr = [2]atomID{qa, ra}
+				sa.divMemo[key] = qr
+			}
+			q, r := linAtom(qr[0]), linAtom(qr[1])
+			st.itv[qr[0]] = Itv{ia.Lo / cb, satDiv(ia.Hi, cb)}.meet(st.atomItv(qr[0]))
 			hi := cb - 1
 			if ia.Hi < hi {
 				hi = ia.Hi
 			}
-			r := sa.boundedAtom(fr, st, t, desc, Itv{0, hi})
-			st.assume(r.Lin.add(a.Lin, -1)) // r <= a
-			return r
+			st.itv[qr[1]] = Itv{0, hi}.meet(st.atomItv(qr[1]))
+			id := a.Lin.add(q, -cb).add(r, -1) // a - cb*q - r == 0
+			st.assume(id)
+			st.assume(id.scale(-1))
+			if x.Op == token.QUO {
+				return sa.fit(fr, st, q, t, desc)
+			}
+			return sa.fit(fr, st, r, t, desc)
 		}
 		if x.Op == token.REM && ib.Lo > 0 && ia.Lo >= 0 {
 			return sa.boundedAtom(fr, st, t, desc, Itv{0, ib.Hi - 1})
